@@ -719,9 +719,11 @@ class Bus(ContainerBase, StoreClientMixin): # not a ContainerOperand
         '''Iterator of pairs of :obj:`Bus` label and contained :obj:`Frame`.
         '''
         if self._max_persist is None: # load all at once if possible
-            if not self._loaded_all:
-                self._update_series_cache_iloc(key=NULL_SLICE)
-            yield from self._series.items()
+            with CACHE_UPDATE_LOCK: # other threads must not replace the values between the update and the read
+                if not self._loaded_all:
+                    self._update_series_cache_iloc(key=NULL_SLICE)
+                series = self._series
+            yield from series.items()
 
         else: # force new iteration to account for max_persist
             for i, label in enumerate(self._series._index):
@@ -734,9 +736,10 @@ class Bus(ContainerBase, StoreClientMixin): # not a ContainerOperand
         '''A 1D object array of all Frame contained in the Bus.
         '''
         if self._max_persist is None: # load all at once if possible
-            if not self._loaded_all:
-                self._update_series_cache_iloc(key=NULL_SLICE)
-            return self._series.values
+            with CACHE_UPDATE_LOCK: # other threads must not replace the values between the update and the read
+                if not self._loaded_all:
+                    self._update_series_cache_iloc(key=NULL_SLICE)
+                return self._series.values
 
         # force new iteration to account for max_persist
         post = np.empty(self.__len__(), dtype=object)
